@@ -1,43 +1,17 @@
-import ApolloModel.Model.Proto
-import ApolloModel.Model.VariableUsage
+import Driver.D23
+import Driver.D29
 /-
 `model`: reads one case per line (`stream<TAB>field…`), prints the model's canonical answer.
 Imports model files only (no Mathlib), so it links as a native executable.
 -/
-open Apollo Apollo.Proto
-
-def c29 (stream : String) (fs : List String) : String :=
-  match stream, fs with
-  | "assignable", [a, b] =>
-    match Ty.decode a, Ty.decode b with
-    | some a, some b => boolStr (Gen.isAssignableTo a b)
-    | _, _ => "bad-case"
-  | "usage", [v, d, l, ld] =>
-    let d := match d with
-      | "absent" => some Spec.DefaultValue.absent
-      | "null" => some .null
-      | "value" => some .nonNullValue
-      | _ => none
-    match Ty.decode v, d, Ty.decode l with
-    | some v, some d, some l => boolStr (Model.isVariableUsageAllowed v d l (parseBool ld))
-    | _, _, _ => "bad-case"
-  | "implfield", [rel, i, t] =>
-    let names := ["A", "B", "C"]
-    let bits := rel.toList
-    let sub (a c : Name) : Bool :=
-      match names.idxOf? a, names.idxOf? c with
-      | some i, some j => bits.getD (i * 3 + j) '0' == '1'
-      | _, _ => false
-    match Ty.decode i, Ty.decode t with
-    | some i, some t => boolStr (Gen.isValidImplementationFieldType sub i t)
-    | _, _ => "bad-case"
-  | _, _ => "bad-case"
+open Driver
 
 def dispatch (line : String) : String :=
   match line.splitOn "\t" with
   | [] => "bad-case"
   | stream :: fs =>
     if stream ∈ ["assignable", "usage", "implfield"] then c29 stream fs
+    else if stream ∈ ["coord", "lookup"] then c23 stream fs
     else "unknown-stream"
 
 partial def loop (h : IO.FS.Stream) (out : IO.FS.Stream) : IO Unit := do
